@@ -135,7 +135,7 @@ def main():
     hyg = hygiene()
     import mwh
     if args.replay:
-        return P.replay(prop, args.replay)
+        sys.exit(1 if P.replay(prop, args.replay) else 0)
 
     violations = []          # (replay file, suffix)
     known_lines = []
